@@ -40,7 +40,8 @@ func newRunner(shape pdb.Shape, cfg pdb.Config, dir string, tr *pdb.Trace, sum *
 		// written but the layer not committed. The event is tagged, the trace ends there, and
 		// PathDBIndexTrace.tla accepts exactly this situation as pending.
 		ix := ev["ix"].(tl.M)
-		if ev["op"] == "Update" && ev["res"] == "fail" && ix["inited"] == true && ix["last"] == -1 {
+		failed := (ev["op"] == "Update" && ev["res"] == "fail") || (ev["op"] == "Commit" && ev["res"] == "err" && ev["i"] != 0)
+		if failed && ix["inited"] == true && ix["last"] == -1 {
 			ev["kf"] = "index-metadata-deleted"
 			sum.Count("KF1:index-metadata-deleted")
 		}
@@ -78,6 +79,9 @@ func readSome(rn *pdb.Runner, max int) {
 			break
 		}
 		rn.HRead(w)
+		if rn.E.Cfg.Trienode {
+			rn.HNode(w)
+		}
 		n++
 	}
 	if len(without) > 0 {
@@ -101,6 +105,14 @@ func runRandom(tracePath, scratch string, seed int64, ntraces, steps int, sum *t
 			CleanCache: []int{0, 1 << 20}[r.Intn(2)],
 			Index:      r.Intn(10) < 7,
 		}
+		// trie-node histories (kept completely) only together with complete state histories,
+		// so that both freezers cover the same range
+		cfg.Trienode = cfg.HistLimit == 0 && r.Intn(2) == 0
+		if cfg.Trienode {
+			// the account trie root is not indexed; a state of one or two accounts has no other node
+			// (a trie-node history without indexable node leaves the index position behind)
+			shape.Ballast = 12
+		}
 		maxVal := 1 + r.Intn(3)
 		rn := newRunner(shape, cfg, filepath.Join(scratch, fmt.Sprintf("rnd-%d", t)), tr, sum, r.Int63(), tl.M{"src": "random", "shape": shape, "dbcfg": cfg})
 		sig := ""
@@ -123,7 +135,10 @@ func runRandom(tracePath, scratch string, seed int64, ntraces, steps int, sum *t
 					dead = true
 				}
 			case c < 62:
-				rn.Commit(r.Intn(top + 1))
+				ci := r.Intn(top + 1)
+				if rn.Commit(ci) == "err" && ci > 0 {
+					i, dead = steps, true
+				}
 				sig += "C"
 			case c < 72:
 				var cands []pdb.World
